@@ -193,9 +193,10 @@ def run_case(case):
             a2 = D.__contains__(both)
             a2 = a2.reshape(-1).bool().numpy()
             res["counters"]["dunder_contains_calls"] = 1
-            if a2.shape != ans.shape or (a2 != ans).any():
+            # compared outside the tolerance band only (ray based membership of meshes is not reproducible on the surface)
+            if a2.shape != ans.shape or (a2 != ans)[far].any():
                 res["viol"].append(viol("dunder_contains_differs", "%s: __contains__(points with parameters) differs from _contains on %d rows"
-                                        % (info["desc"], int((a2 != ans).sum()) if a2.shape == ans.shape else -1), **mech))
+                                        % (info["desc"], int((a2 != ans)[far].sum()) if a2.shape == ans.shape else -1), **mech))
         except Exception as e:
             res["viol"].append(viol("exception", "%s.__contains__ raised %s in %s: %s" % (type(D).__name__, type(e).__name__, exc_site(e),
                                     str(e)[:300]), exc=type(e).__name__, site=exc_site(e), call="__contains__", **mech))
